@@ -64,7 +64,7 @@ def parse_explain(text):
 
 def explain():
     """Runs the explain twin on both item lists: {source: [(item, field, reason)]}"""
-    outs = V.coq_eval("C07_explain", HDR, ["rust_explain mm %s" % LISTS[k] for k in ("generated", "committed")])
+    outs = V.coq_eval("C07_explain", HDR, ["rust_explain mm %s msg_hints" % LISTS[k] for k in ("generated", "committed")])
     return {k: parse_explain(o) for k, o in zip(("generated", "committed"), outs)}
 
 
@@ -107,8 +107,8 @@ def mm_entry(doc, item, field):
         return {"typeAlias": short(view.A[item])}
     for kind in ("requests", "notifications"):
         for m in doc[kind]:
-            tn = m.get("typeName") or ""
-            if item in (tn, (tn[:-7] if tn.endswith("Request") else tn) + "Response") or field == m["method"] or item == m["method"]:
+            tn = rs_search.msg_name(m, "Request" if kind == "requests" else "Notification")
+            if item in (tn, rs_search.resp_name(tn)) or field == m["method"] or item == m["method"]:
                 return {kind[:-1]: short(m)}
     return {"note": "not a metamodel item (helper item of lib.rs): must not be feature-gated"}
 
@@ -153,6 +153,7 @@ def run(chk):
     chk.trusted = V.STD_TRUSTED + [
         "translator lib/x_mm.py (lsp.json -> Gen/MMData.v, fail-closed)",
         "translator lib/x_rs.py (runs the rust plugin; tokeniser + recursive-descent parser of the emitted Rust subset, fail-closed; "
+        "its message-name hints for typeName-less messages are NOT trusted: the Coq checker validates them; "
         "raw and rustfmt'ed output must parse to the same items; rustfmt accepting the file is the only syntax check of the Rust text)",
         "specification choices in coq/Rust.v: rs_of/rs_rel (type mapping), the Option rule, serde_name (serde's camelCase rule as in "
         "serde_derive internals/case.rs), wire_disc (derived string discriminants; hand-written i32 impls), Box<T> read as T, "
@@ -161,7 +162,12 @@ def run(chk):
         "serde / serde_derive / rustc themselves are not modelled; that the crate compiles is outside the claim (no crates offline)",
     ]
     chk.assumptions = ["the wire behaviour of #[derive(Serialize, Deserialize)] with rename / rename_all / untagged is as documented by serde",
-                       "message structs are named by typeName (present on every request/notification of the committed metamodel)"]
+                       "message structs are named by typeName when present (it is optional in lsp.schema.json; present on every "
+                       "request/notification of the committed metamodel), otherwise by a derived-name hint (Gen.RustData.msg_hints, "
+                       "computed by lib/x_rs.py from the method: '$/' stripped, split on '/', '_' and camel-case boundaries, parts "
+                       "capitalised, 'Request'/'Notification' appended).  The hint is UNTRUSTED: the checker validates it (the struct "
+                       "found under that name must satisfy every message-struct clause, and no two messages may share a struct); "
+                       "a message with neither typeName nor a valid hint fails the check"]
     chk.rule = RULE
     chk.exhaustive = True
     doc = json.load(open(mm_path()))
